@@ -21,6 +21,7 @@ mod sync_scn;
 mod model_scn;
 mod cloud_scn;
 mod srv_scn;
+mod http_scn;
 mod refcrypto;
 
 pub fn uuid_of(n: u64) -> Uuid {
